@@ -46,6 +46,15 @@ T = {
  "C14": ("Coq proof (whitened mean zero; L^T C L = I for M = C^-1 = L L^T with L lower triangular, positive diagonal; whitened covariance and WCCN within-class scatter/K are the identity; the WCCN projection depends only on the partition: class order, sample order and label values) under the contracts of inv and cholesky + correspondence + oracle",
          "Theorems over R for any dimension, class count and sample count; Whitening/WCCN.fit compared with the float model (Gauss-Jordan, Cholesky-Banachiewicz); oracle on negative / non-contiguous / unsorted labels and Dask input.",
          "inv/cholesky are oracles with explicit contracts (checked numerically by the oracle on every case).", "DESIGN.md 4/C14"),
+ "C09": ("Coq proof (the D phase of JFA training is exact EM: one E/M iteration never lowers the phase marginal, any sizes; scalar factor-analysis core by the ELBO bound) + ISV/JFA fit correspondence + independent per-phase marginal oracle for V, U, D (slogdet)",
+         "Theorem over R for the diagonal (D) phase in full; the V and U phases (rank > 1) are validated numerically after every iteration of the public e_step_*/m_step_* functions because ln det A <= tr A - n is not available without determinant theory. JFAMachine.fit/ISVMachine.fit compared with the float model (U, V, D).",
+         "partial: V/U phase monotonicity for rank > 1 is numerical evidence only; shapes/finiteness by the oracle.", "DESIGN.md 4/C09"),
+ "C17": ("Coq proof (invariant over ALL histories of public operations: cached log-weights/normalisers are those of the visible parameters, variances are a fixed point of the clamp to the current floors; observations = those of the visible parameters; statistics likewise) + history correspondence (state compared after every operation) + fresh-machine oracle",
+         "Theorems over R by induction over the operation list (setters with scalar/per-feature/matrix floors, EM steps with any switches, deepcopy, pickle, save/load); random histories run against the real object and the float model.",
+         "the object model is hand-written and tied by the history correspondence.", "DESIGN.md 4/C17"),
+ "C18": ("Coq proof (generic round-trip theorem for a key-list driven writer/reader incl. h5py's str->bytes; obligations decided on the reader/writer/constructor key lists GENERATED from gmm.py on every run: every recorded setting bound to its own key, every written key read, trainer decoded, floors before variances, statistics fields) + round-trip oracle",
+         "The reader/writer tie is regenerated from source (ast) on every run, so an edit that stops restoring a setting breaks a proof obligation; the oracle performs the round trips (constructor-from-file, open file, load into another shape, re-save, legacy layouts, statistics) and compares bits, equality, scores, settings and a further fit.",
+         "extractor harness/extract_facts.py is trusted; unrecorded settings assumed at defaults (stated).", "DESIGN.md 4/C18"),
 }
 
 NOT_YET = "check not built yet in this round (the proof technique applies; see DESIGN.md section 4)"
